@@ -15,6 +15,7 @@ import json
 import os
 import random
 import re
+import time
 
 import vlib
 
@@ -331,14 +332,16 @@ def run(ctx, binary, scheds, tag, extra=()):
             f.write(json.dumps({k: v for k, v in s.items() if k != "nfaults"}) + "\n")
     trace = os.path.join(ctx.scratch, "trace-%s.ndjson" % tag)
     args = ["-out", trace] + (["-in", path] if scheds else []) + list(extra)
+    t0 = time.time()
     p = vlib.run_harness(binary, args, timeout=3000)
-    ctx.stage("real-run-" + tag, out=p.stdout.strip().splitlines()[-1] if p.stdout.strip() else "")
+    ctx.stage("real-run-" + tag, out=p.stdout.strip().splitlines()[-1] if p.stdout.strip() else "", wall=round(time.time() - t0, 1))
     return trace
 
 
 def validate(ctx, trace, prefix, chunk=1200, workers=None):
     """TLC evaluates every `prefix` invariant and the drift monitors on every recorded event.
     Returns (scenarios, events). Violations -> ctx.violation; drift -> Infra (after the violations)."""
+    t0 = time.time()
     events = vlib.read_ndjson(trace)
     spans = vlib.scenario_index(events)
     if not spans:
@@ -391,6 +394,7 @@ def validate(ctx, trace, prefix, chunk=1200, workers=None):
                            "trace": [{k: v for k, v in ev.items() if k != "sched"} for ev in scen[:at + 1]]})
     ctx.cov["traces_validated_against_impl"] += len(spans)
     ctx.cov["trace_events_validated"] += len(events) - len(spans)
+    ctx.stage("trace-validation", scenarios=len(spans), events=len(events) - len(spans), invariants=invs, wall=round(time.time() - t0, 1))
     if drift_first is not None:
         raise vlib.Infra("specification drift: " + drift_first[1])
     return len(spans), len(events)
